@@ -6,7 +6,7 @@ import random
 
 import p_recv
 import p_rsync
-from vlib import Broken, read_ndjson, write_ndjson
+from vlib import unreproduced as vlib_unreproduced, Broken, read_ndjson, write_ndjson
 
 
 def trace_cfg(fam):
@@ -141,8 +141,7 @@ def run_validate_confirm(w, fam, lines, label, v, counts, sigfn, peers=False):
             wire_where[i] = {"events_explained": max(0, l - 1), "first_unexplained": (ev[l - 1] if 0 < l <= len(ev) else "end of session / final tree"),
                              "parse_error": rows2[i]["parse_err"]}
         rej2 = set(rej2) | set(wrej2)
-        if set(rej) - set(rej2):
-            raise Broken("rejections not reproduced on re-run: ids %s" % sorted(set(rej) - set(rej2))[:10])
+        vlib_unreproduced(v, rej, rej2)
         for o in obs2:
             if o["id"] in rej2:
                 sg = sigfn(o)
